@@ -36,6 +36,7 @@ type Harness struct {
 	Bounds   string
 	Kind     string // "" or "validate"
 	Stubs    map[string]string
+	Solver   string
 }
 
 type Loaded struct {
@@ -139,6 +140,8 @@ func parseHarnessFile(src, pkgDir, path string) []*Harness {
 					h.Bounds = val
 				case "kind":
 					h.Kind = val
+				case "solver":
+					h.Solver = val
 				case "stub":
 					kv := strings.SplitN(val, "=", 2)
 					if len(kv) == 2 {
